@@ -204,6 +204,22 @@ func (a Box3) MinMaxDist2(p v3.Vec) Interval {
 			d := math.Min(math.Abs(a.Max.X), math.Abs(a.Min.X))
 			minDist2 = math.Min(minDist2, d*d)
 		}
+		// consider the edges (for the minimum)
+		if withinX {
+			dy := math.Min(math.Abs(a.Max.Y), math.Abs(a.Min.Y))
+			dz := math.Min(math.Abs(a.Max.Z), math.Abs(a.Min.Z))
+			minDist2 = math.Min(minDist2, dy*dy+dz*dz)
+		}
+		if withinY {
+			dx := math.Min(math.Abs(a.Max.X), math.Abs(a.Min.X))
+			dz := math.Min(math.Abs(a.Max.Z), math.Abs(a.Min.Z))
+			minDist2 = math.Min(minDist2, dx*dx+dz*dz)
+		}
+		if withinZ {
+			dx := math.Min(math.Abs(a.Max.X), math.Abs(a.Min.X))
+			dy := math.Min(math.Abs(a.Max.Y), math.Abs(a.Min.Y))
+			minDist2 = math.Min(minDist2, dx*dx+dy*dy)
+		}
 	}
 
 	return Interval{minDist2, maxDist2}
